@@ -57,4 +57,24 @@ func VerifC06EdgeKeys() {
 		}
 	}
 	vstub.Cover("edge-keys")
+	// VALUE OWNERSHIP: the caller reuses the buffer it passed to Put; the store keeps
+	// showing what was written (what the log holds), also after later index updates
+	buf := []byte("orig")
+	if _, err := kv.Put(ctx, "own", buf); err != nil {
+		vstub.Fail("C06 Put failed")
+		return
+	}
+	buf[0], buf[1] = 'X', 'Y'
+	if _, err := kv.Put(ctx, "z", []byte("later")); err != nil {
+		vstub.Fail("C06 Put failed")
+		return
+	}
+	if _, err := kv.Delete(ctx, "absent"); err != nil {
+		vstub.Fail("C06 Delete failed")
+		return
+	}
+	got, _ := kv.Get(ctx, "own")
+	vstub.Assert(string(got) == "orig", "C06 Get shows the value that was written, not the caller's reused buffer")
+	kvSameMap(kv.All(), kvReplay(a), "C06 All equals the replay after the caller reused its buffer")
+	vstub.Cover("caller-reused-its-buffer")
 }
